@@ -23,6 +23,7 @@ Record Script := mkScript {
 (** proofs a relayer can submit *)
 Inductive Proof :=
 | PHonest (version : N) (key : PKey)   (* real proof of the counterparty's state version for that key *)
+| PSentinel                            (* the 09-localhost sentinel proof *)
 | PGarbage.
 
 Record Client := mkClient {
@@ -93,6 +94,24 @@ Section Honest.
 Variable other : WChain.      (* the counterparty chain as it is now (its committed versions) *)
 Variable me : WChain.
 Variable proof : Proof.       (* the proof attached to the message being processed *)
+Variable lh : Id.             (* identifier of the 09-localhost client *)
+
+(** 09-localhost (light_client_module.go, after the repair of F2): sentinel proof, proof height not above the
+    chain's own height, and the chain's own IBC store holds exactly the value (resp. nothing) *)
+Definition loop_vmem (ph : Height) (k : PKey) (v : PVal) : bool :=
+  match proof with
+  | PSentinel =>
+      h_lte ph (self_h (w_chain me)) &&
+      match lookup (w_chain me) k with Some v' => pval_eqb v v' | None => false end
+  | _ => false
+  end.
+Definition loop_vnon (ph : Height) (k : PKey) : bool :=
+  match proof with
+  | PSentinel =>
+      h_lte ph (self_h (w_chain me)) &&
+      match lookup (w_chain me) k with Some _ => false | None => true end
+  | _ => false
+  end.
 
 Definition find_client (id : Id) : option Client := assoc N.eqb id (w_clients me).
 
@@ -107,6 +126,7 @@ Definition consulted (id : Id) (ph : Height) : option (N * N) :=
   end.
 
 Definition honest_vmem (id : Id) (ph : Height) (k : PKey) (v : PVal) : bool :=
+  if id =? lh then loop_vmem ph k v else
   match consulted id ph, proof with
   | Some (_, ver), PHonest pv pk =>
       (pv =? ver) && pkey_eqb pk k &&
@@ -118,6 +138,7 @@ Definition honest_vmem (id : Id) (ph : Height) (k : PKey) (v : PVal) : bool :=
   end.
 
 Definition honest_vnon (id : Id) (ph : Height) (k : PKey) : bool :=
+  if id =? lh then loop_vnon ph k else
   match consulted id ph, proof with
   | Some (_, ver), PHonest pv pk =>
       (pv =? ver) && pkey_eqb pk k &&
@@ -133,9 +154,12 @@ Variable noncanon : Data -> bool.
 
 Definition honest_env : Env AppSt :=
   mkEnv AppSt
-    (fun id => match find_client id with Some cl => client_active (self_t (w_chain me)) cl | None => false end)
-    (fun id => match find_client id with Some cl => cl_latest cl | None => mkH 0 0 end)
-    (fun id h => match find_client id with
+    (fun id => if id =? lh then true else
+               match find_client id with Some cl => client_active (self_t (w_chain me)) cl | None => false end)
+    (fun id => if id =? lh then self_h (w_chain me) else
+               match find_client id with Some cl => cl_latest cl | None => mkH 0 0 end)
+    (fun id h => if id =? lh then Some (self_t (w_chain me)) else
+                 match find_client id with
                  | Some cl => option_map fst (assocH h (cl_cons cl))
                  | None => None end)
     honest_vmem honest_vnon noncanon
@@ -168,11 +192,12 @@ End Honest.
 (** ** World operations *)
 Inductive WOp :=
 | WPacket (o : Op) (pf : Proof)                 (* a packet-handler operation of Core/Chain.v with its proof *)
+| WPacketC (o : Op) (pf pfc : Proof)            (* MsgTimeoutOnClose: unreceived proof and closed-channel proof *)
 | WUpdateClient (id : Id) (h : N)               (* MsgUpdateClient with the counterparty's committed header h *)
 | WFreeze (id : Id)
 | WEmpty.                                       (* empty block *)
 
-Record World := mkWorld { wa : WChain; wb : WChain; w_script : Script; w_noncanon : Data -> bool }.
+Record World := mkWorld { wa : WChain; wb : WChain; w_script : Script; w_noncanon : Data -> bool; w_lh : Id }.
 
 Definition set_client (w : WChain) (id : Id) (cl : Client) : WChain :=
   mkW (w_chain w) ((id, cl) :: w_clients w) (w_vers w) (w_hdrs w).
@@ -202,12 +227,22 @@ Definition freeze_client (me : WChain) (id : Id) : WChain * Outcome :=
   end.
 
 (** one block on chain [me]: executes at (h, t), then commits: the state becomes version h *)
-Definition wstep_chain (sc : Script) (nc : Data -> bool) (me other : WChain) (h : Height) (t : N) (o : WOp) : WChain * Outcome :=
+Definition wstep_chain (sc : Script) (nc : Data -> bool) (lh : Id) (me other : WChain) (h : Height) (t : N) (o : WOp) : WChain * Outcome :=
   let me0 := mkW (set_block (w_chain me) h t) (w_clients me) (w_vers me) (w_hdrs me) in
   let '(me1, out) :=
     match o with
     | WPacket op pf =>
-        let '(c', out) := step (honest_env other me0 pf sc nc) (w_chain me0) op in
+        let '(c', out) := step (honest_env other me0 pf lh sc nc) (w_chain me0) op in
+        (mkW c' (w_clients me0) (w_vers me0) (w_hdrs me0), out)
+    | WPacketC op pf pfc =>
+        let e1 := honest_env other me0 pf lh sc nc in
+        let e2 := honest_env other me0 pfc lh sc nc in
+        (* the channel-state key is verified with the closed-channel proof, everything else with the other *)
+        let e := mkEnv AppSt (e_active e1) (e_latest e1) (e_ts e1)
+                   (fun id ph k v => match k with KChan _ _ => e_vmem e2 id ph k v | _ => e_vmem e1 id ph k v end)
+                   (e_vnon e1) (e_noncanon e1) (e_recv1 e1) (e_ack1 e1) (e_timeout1 e1)
+                   (e_send2 e1) (e_recv2 e1) (e_ack2 e1) (e_timeout2 e1) in
+        let '(c', out) := step e (w_chain me0) op in
         (mkW c' (w_clients me0) (w_vers me0) (w_hdrs me0), out)
     | WUpdateClient id hh => update_client me0 other id hh
     | WFreeze id => freeze_client me0 id
@@ -219,8 +254,8 @@ Inductive Side := SA | SB.
 
 Definition wstep (w : World) (s : Side) (h : Height) (t : N) (o : WOp) : World * Outcome :=
   match s with
-  | SA => let '(a', out) := wstep_chain (w_script w) (w_noncanon w) (wa w) (wb w) h t o in
-          (mkWorld a' (wb w) (w_script w) (w_noncanon w), out)
-  | SB => let '(b', out) := wstep_chain (w_script w) (w_noncanon w) (wb w) (wa w) h t o in
-          (mkWorld (wa w) b' (w_script w) (w_noncanon w), out)
+  | SA => let '(a', out) := wstep_chain (w_script w) (w_noncanon w) (w_lh w) (wa w) (wb w) h t o in
+          (mkWorld a' (wb w) (w_script w) (w_noncanon w) (w_lh w), out)
+  | SB => let '(b', out) := wstep_chain (w_script w) (w_noncanon w) (w_lh w) (wb w) (wa w) h t o in
+          (mkWorld (wa w) b' (w_script w) (w_noncanon w) (w_lh w), out)
   end.
